@@ -64,6 +64,7 @@ func runLemma(eng *Engine, sv *Solver, lm *Lemma) (out []*lemmaResult) {
 		s := &State{heap: map[string]string{}, touched: map[string]bool{}, allocBase: "alloc0"}
 		env := c.newSpecEnv(s, nil)
 		env.pkg = eng.typesPkg(lm.Pkg)
+		env.old = map[string]string{} // old(e): e in the initial state of the lemma
 		for _, v := range lm.Vars {
 			ff := strings.Fields(v)
 			if len(ff) != 2 {
